@@ -108,3 +108,15 @@ Theorem C02_ipa_one_value :
     v1 = v2.
 Proof. exact @ipa_check_one_value. Qed.
 Print Assumptions C02_ipa_one_value.
+
+(* PST13, trait level: for fixed commitments, point, proof and challenges at most one challenge-weighted combination of
+   the claimed values is accepted, whatever the proof is (g is a free generator) *)
+From PC Require Import Schemes.PST13H Proofs.PST13HFacts.
+Theorem C02_pst13_one_combined_value :
+  forall (FO : FieldOps) (FL : FieldLaws FO) nv betas cs z vs1 vs2 pf chal r1 r2,
+    length vs1 = length cs -> length vs2 = length cs ->
+    ph_check nv betas cs z vs1 pf chal = Ok (true, r1) ->
+    ph_check nv betas cs z vs2 pf chal = Ok (true, r2) ->
+    dot chal vs1 = dot chal vs2.
+Proof. exact @ph_one_combined_value. Qed.
+Print Assumptions C02_pst13_one_combined_value.
